@@ -46,7 +46,10 @@ func runC30(c *core.Ctx) {
 	}
 }
 
-func bytesEqual(cl *ssa.Call) bool { return ir.IsPkgFunc(cl, "bytes", "Equal") }
+// bytesEqual: bytes.Equal(a, b), or bytes.Compare(a, b) (which ir.BoolIs accepts in the forms == 0 / != 0).
+func bytesEqual(cl *ssa.Call) bool {
+	return ir.IsPkgFunc(cl, "bytes", "Equal") || ir.IsPkgFunc(cl, "bytes", "Compare")
+}
 
 func calleeNamed(v ssa.Value, names ...string) *ssa.Call {
 	cl, _ := ir.CallOf(v)
@@ -210,16 +213,52 @@ func checkTmSync(c *core.Ctx, sp tmSpec) {
 	}
 	// stores into the tracked info
 	var stores []ir.Sink
-	for _, b := range fn.Blocks {
-		for _, in := range b.Instrs {
-			if st, ok := in.(*ssa.Store); ok {
-				if fa, isFA := st.Addr.(*ssa.FieldAddr); isFA && isCallTo(fa.X, get) {
-					switch fieldNameOf(fa) {
-					case "NextValidatorsHash", "Height", "BlockHash":
-						stores = append(stores, ir.Sink{Instr: st, Note: "info." + fieldNameOf(fa) + " = …"})
+	findStores := func(host *ssa.Function) {
+		for _, b := range host.Blocks {
+			for _, in := range b.Instrs {
+				if st, ok := in.(*ssa.Store); ok {
+					if fa, isFA := st.Addr.(*ssa.FieldAddr); isFA && isCallTo(fa.X, get) {
+						switch fieldNameOf(fa) {
+						case "NextValidatorsHash", "Height", "BlockHash":
+							stores = append(stores, ir.Sink{Instr: st, Note: "info." + fieldNameOf(fa) + " = …"})
+						}
 					}
 				}
 			}
+		}
+	}
+	findStores(fn)
+	perHeaderHelper := false
+	if len(stores) == 0 {
+		// the per-header step (verify, compare, update) may stand in a same-package helper that is handed the
+		// tracked info; its parameters are bound to the call and the obligations are decided there
+		for _, ci := range ir.Calls(fn, nil) {
+			h := ci.Common().StaticCallee()
+			if h == nil || h == fn || h.Pkg != fn.Pkg || len(h.Blocks) == 0 {
+				continue
+			}
+			hasInfo := false
+			for _, a := range ci.Common().Args {
+				if isCallTo(a, get) {
+					hasInfo = true
+				}
+			}
+			if !hasInfo {
+				continue
+			}
+			unbind := ir.BindParams(h, ci.Common().Args)
+			findStores(h)
+			if len(stores) > 0 {
+				defer unbind()
+				c.Attribute(h, fn)
+				// the record is stored by the caller after the batch
+				for _, p := range ir.CallsTo(fn, put) {
+					c.Decide(isCallTo(p.Common().Args[2], get), "C30.epoch-advance", fn, "the record stored is the updated tracked info", c.P.Rel(p.Pos()), "")
+				}
+				fn, perHeaderHelper = h, true
+				break
+			}
+			unbind()
 		}
 	}
 	c.Floor("updates of the tracked epoch info in "+sp.pkg, len(stores), 2)
@@ -271,6 +310,13 @@ func checkTmSync(c *core.Ctx, sp tmSpec) {
 		}
 		okFresh := len(loads) > 0
 		why := sprintf("%d comparison(s) of the tracked height", len(loads))
+		if perHeaderHelper && okFresh {
+			// one call of the helper handles one header and reads info.Height through the pointer it was
+			// handed: every header is compared with the height as left by the call before it
+			c.Hold("C30.epoch-advance", fn, "each header of a batch is compared with the tracked height as updated by the headers before it", c.P.Rel(fn.Pos()), "read per call through the tracked info pointer")
+			stores = stores[:len(stores):len(stores)]
+			goto afterFresh
+		}
 		for _, s := range stores {
 			st := s.Instr.(*ssa.Store)
 			if fa, isFA := st.Addr.(*ssa.FieldAddr); !isFA || fieldNameOf(fa) != "Height" {
@@ -285,6 +331,7 @@ func checkTmSync(c *core.Ctx, sp tmSpec) {
 			}
 		}
 		c.Decide(okFresh, "C30.epoch-advance", fn, "each header of a batch is compared with the tracked height as updated by the headers before it", c.P.Rel(fn.Pos()), why)
+	afterFresh:
 	}
 	// the verified header is checked against that same info
 	for _, v := range ir.CallsTo(fn, vch) {
@@ -339,6 +386,8 @@ func checkTmDeposit(c *core.Ctx, pkg, typ, hs string) {
 	c.Decide(nAbs == 0, "C30.existence-proof", fn, "no VerifyAbsence call in the deposit path", c.P.Rel(fn.Pos()), sprintf("%d calls", nAbs))
 	// the accepted message is decoded from the proven value
 	if vv != nil {
+		// the proof may be verified in a helper handed the proof value: its parameters stand for the call's arguments
+		defer bindHelperOf(fn, vv)()
 		proven := vv.Common().Args[4]
 		// okex proves keccak256(value) (EVM storage slot): the decoded bytes are the pre-image
 		if k := calleeNamed(proven, "Keccak256"); k != nil {
